@@ -46,6 +46,13 @@ theorem C04_path_fields_disjoint :
 
 theorem C04_path_fields_nodup : Gen.TREEINFO_PATH_FIELDS.Nodup := by decide
 
+/-- the "seven path kinds" of the property are EXACTLY the generated field list, and the variant types exactly the three
+documented ones (equalities, both inclusions: a kind added to or dropped from the code breaks this) -/
+theorem C04_tables_documented :
+    Gen.TREEINFO_PATH_FIELDS = ["packages", "repository", "source_packages", "source_repository", "debug_packages", "debug_repository",
+      "identity"].map String.toList ∧
+    Gen.TREEINFO_VARIANT_TYPES = ["variant", "optional", "addon"].map String.toList := by decide
+
 /-- the written document has no `[DEFAULT]` block, so `get`/`has_option` never fall back -/
 theorem C04_no_default (t : TreeInfo) (mv : Option Str) (d : Ini) (h : serialize t mv = .ok d) : Ini.NoDefault d := by
   obtain ⟨n, key, v, w⟩ := serialize_spec h
